@@ -202,7 +202,8 @@ def cell_of(items, shape):
     bt = any(k in ix.TENSOR_KINDS for k in bk)
     rt, ct = rk in ix.TENSOR_KINDS, ck in ix.TENSOR_KINDS
     absorbed = (bt and (rt or ct)) or ((not bt) and rt and ct)
-    info = {"absorbed": absorbed, "kind_at": kind_at}
+    info = {"absorbed": absorbed, "kind_at": kind_at,
+            "generic": "r=%s;c=%s;b=%s" % (gk(rk), gk(ck), "+".join(sorted({gk(k) for k in bk})))}
     if rk == "int_m1" or ck == "int_m1":
         cell = "int_m1@matrix"
     elif absorbed and rk in ix.INT_KINDS:
@@ -211,8 +212,21 @@ def cell_of(items, shape):
             bk + ["full" if rk in ix.INT_KINDS else rk, "full" if ck in ix.INT_KINDS else ck]):
         cell = "absorbed+rank2-in-place+trailing-dim"
     else:
-        cell = "r=%s;c=%s;b=%s" % (gk(rk), gk(ck), "+".join(sorted({gk(k) for k in bk})))
+        cell = info["generic"]
     return cell, info
+
+
+FRONT_CELLS = ("int_m1@matrix", "absorbed+int@row", "absorbed+rank2-in-place+trailing-dim")
+
+
+def front_end_at_fault(TD, idx, dbg, exp):
+    """Shrinking step for the three class-independent front-end cells: the failure is attributed to
+    LinearOperator.__getitem__ itself iff the same index also fails on a plain DenseLinearOperator holding the
+    dense matrix (whose _getitem / _get_indices is torch indexing).  Otherwise the class is at fault and the
+    case is keyed by its generic (row kind, column kind, batch kinds) cell."""
+    from linear_operator.operators import DenseLinearOperator
+    r = run_index(DenseLinearOperator(TD.clone()), idx, dbg)
+    return fail_kind(r, exp) is not None
 
 
 def tree_classes(e, acc=None):
@@ -460,6 +474,7 @@ def stage_e2e(ctx, rng):
     cells_seen = set()
     kind_hist = {}
     per_cls_count = {}
+    dense_of = {}
     t0 = time.time()
     for tag, e in insts:
         try:
@@ -477,6 +492,7 @@ def stage_e2e(ctx, rng):
         stats["e2e_instances"] += 1
         dname = "D%d" % stats["e2e_instances"]
         defs[dname] = "Definition %s := %s.\n" % (dname, tlit_of(TD))
+        dense_of[dname] = TD
         for ri, row in e2e_rows(ctx, nd, cno):
             items, bare = ix.instantiate(rng, row, shape, form=ri % 5)
             idx = ix.to_py(items, bare)
@@ -504,6 +520,8 @@ def stage_e2e(ctx, rng):
                 continue
             fk = "raise:" + r[1]
         stats["e2e_direct_failures"] += 1
+        if cell in FRONT_CELLS and e["cls"] != "Dense" and not front_end_at_fault(dense_of[dname], ix.to_py(items, bare), dbg, exp):
+            cell = cell_of(items, ob.shape_of(e))[1]["generic"]
         key = case_key(e, cell, fk, debug=dbg, attrs=path_attrs(e, items, ob.shape_of(e)))
         sk = json.dumps(key, sort_keys=True)
         if sk in reported:
@@ -515,10 +533,17 @@ def stage_e2e(ctx, rng):
                        "describe": ob.describe(e)}, key=key)
     # ---- correspondence with the Coq SPEC on the same cases (implementation output vs torch_index on the dense literal)
     lits, idxmap = [], []
+    prev = None
     for ci, (tag, e, items, bare, dbg, r, exp, cell, dname, fk) in enumerate(cases):
         if fk is not None:
+            prev = None
             continue            # already triaged by the oracle above (failing input or declared unsupported)
-        lits.append("SC %s %s %s" % (dname, idx_lit(items), otensor_lit(r)))
+        lit = "SC %s %s %s" % (dname, idx_lit(items), otensor_lit(r))
+        if lit == prev:
+            stats["e2e_coq_shared_by_debug_modes"] = stats.get("e2e_coq_shared_by_debug_modes", 0) + 1
+            continue            # debug on / off gave the identical observation for the identical index: one literal
+        prev = lit
+        lits.append(lit)
         idxmap.append(ci)
     shards = []
     for i in range(0, len(lits), SH):
@@ -635,11 +660,17 @@ def search_on_failure_factory(ctx):
 def run(ctx):
     torch.set_num_threads(1)
     regenerate()
+    tm = {}
+    t0 = time.time()
     ok = common.proof_stage(ctx, search_on_failure_factory(ctx))
+    tm["proof_stage"] = round(time.time() - t0, 1)
     rng = random.Random(ctx.seed)
     cov = {}
     if ok:
+        t0 = time.time()
         cov.update(stage_spec(ctx, rng))
+        tm["L1"] = round(time.time() - t0, 1)
+        t0 = time.time()
         # L2 / L3: the transcriptions of the library code against the real functions
         jobs = lib.Jobs()
         lst = [lib.stage_getitem_py(ctx, rng, jobs),
@@ -648,9 +679,15 @@ def run(ctx):
         jobs.run(ctx)
         for d in lst:
             cov.update(d)
+        tm["L2L3"] = round(time.time() - t0, 1)
+    t0 = time.time()
     st, samples, cells = stage_e2e(ctx, rng)
     cov.update(st)
+    tm["L4"] = round(time.time() - t0, 1)
+    t0 = time.time()
     cov.update(stage_diag(ctx, rng))
+    tm["diag"] = round(time.time() - t0, 1)
+    cov["stage_seconds"] = tm
     import linear_operator
     cov["tree_under_test"] = os.path.dirname(os.path.dirname(os.path.abspath(linear_operator.__file__)))
     ctx.coverage.update(cov)
